@@ -68,25 +68,25 @@ func buildEvidence(prop string, pc propCfg, tier string, seed int, agg summary, 
 		evals = agg.Runs
 	}
 	cov := map[string]any{
-		"evaluations":              evals,
-		"distinct_nontrivial":      sigs,
-		"rule":                     pc.Rule,
-		"samples":                  samples,
-		"runs":                     agg.Runs,
-		"runs_per_hour":            int(perHour),
-		"simulated_time_s":         float64(agg.SimMs) / 1000,
-		"scheduler_steps":          agg.Steps,
-		"faults_fired":             agg.Faults,
-		"probes_hit":               agg.Probes,
-		"scenarios":                agg.Scen,
-		"distinct_decision_traces": distinctTraces,
+		"evaluations":               evals,
+		"distinct_nontrivial":       sigs,
+		"rule":                      pc.Rule,
+		"samples":                   samples,
+		"runs":                      agg.Runs,
+		"runs_per_hour":             int(perHour),
+		"simulated_time_s":          float64(agg.SimMs) / 1000,
+		"scheduler_steps":           agg.Steps,
+		"faults_fired":              agg.Faults,
+		"probes_hit":                agg.Probes,
+		"scenarios":                 agg.Scen,
+		"distinct_decision_traces":  distinctTraces,
 		"distinct_state_signatures": sigs,
-		"signature_examples":       sigSample,
-		"determinism_canaries":     agg.Canaries,
-		"real_components":          pc.Real,
-		"stub_components":          pc.Stub,
-		"tree":                     tree,
-		"known_findings_matched":   nknown,
+		"signature_examples":        sigSample,
+		"determinism_canaries":      agg.Canaries,
+		"real_components":           pc.Real,
+		"stub_components":           pc.Stub,
+		"tree":                      tree,
+		"known_findings_matched":    nknown,
 	}
 	if pc.Exhaustive {
 		cov["exhaustive"] = true
